@@ -43,7 +43,19 @@ class Stage:
         use_repo()
         self.rng = np.random.default_rng(seed)
         self.n = pool_size
+        self._bufs = {}
         self.setup()
+
+    def buf(self, name, arr):
+        """the batch in a PERSISTENT argument array: calls with batches of equal length hand the stage the very same array objects
+        with new contents (a stepping loop's `x += dx`), so that anything remembered by argument identity is exposed"""
+        arr = np.ascontiguousarray(arr)
+        key = (name, arr.shape, arr.dtype.str)
+        b = self._bufs.get(key)
+        if b is None:
+            b = self._bufs[key] = np.empty_like(arr)
+        b[...] = arr
+        return b
 
     def digest_outputs(self, arrs, n):
         return [hashlib.sha1(_rowbytes(arrs, j)).digest()[:8] for j in range(n)]
@@ -68,7 +80,7 @@ class GeomThrow(Stage):
         self.u = u
 
     def call(self, idx):
-        u = np.ascontiguousarray(self.u[:, idx])
+        u = self.buf("u", self.u[:, idx])
         keep = u.copy()
         g = self.obj
         g.throw(u)
@@ -91,7 +103,7 @@ class GeomCall(GeomThrow):
     plots = True
 
     def call(self, idx, plot=False):
-        u = np.ascontiguousarray(self.u[:, idx])
+        u = self.buf("u", self.u[:, idx])
         keep = u.copy()
         b, t, p = plots.call(self.obj, u, plot=plot)
         m = np.asarray(self.obj.event_mask)
@@ -108,7 +120,7 @@ class TooThrow(Stage):
         self.t = np.sort(self.rng.random(self.n))
 
     def call(self, idx):
-        t = np.ascontiguousarray(self.t[idx])
+        t = self.buf("t", self.t[idx])
         keep = t.copy()
         g = self.obj
         g.throw(t)
@@ -126,7 +138,7 @@ class TooCall(TooThrow):
     plots = True
 
     def call(self, idx, plot=False):
-        t = np.ascontiguousarray(self.t[idx])
+        t = self.buf("t", self.t[idx])
         keep = t.copy()
         b, th, p, tm = plots.call(self.obj, t, plot=plot)
         h = np.asarray(self.obj.horizon_mask)
@@ -174,7 +186,7 @@ class TauEnergy(Stage):
     setup = _tau_pool
 
     def call(self, idx):
-        b, le, u = self.beta[idx].copy(), self.le[idx].copy(), self.u[idx].copy()
+        b, le, u = self.buf("beta", self.beta[idx]), self.buf("le", self.le[idx]), self.buf("u", self.u[idx])
         keep = [b.copy(), le.copy(), u.copy()]
         e = self.obj.tau_energy(b, le, u)
         return self.digest_outputs([e], len(idx)), _intact(keep, [b, le, u])
@@ -185,7 +197,7 @@ class TauExit(Stage):
     setup = _tau_pool
 
     def call(self, idx):
-        b, le = self.beta[idx].copy(), self.le[idx].copy()
+        b, le = self.buf("beta", self.beta[idx]), self.buf("le", self.le[idx])
         keep = [b.copy(), le.copy()]
         p = self.obj.tau_exit_prob(b, le)
         return self.digest_outputs([p], len(idx)), _intact(keep, [b, le])
@@ -197,7 +209,7 @@ class TausCall(Stage):
     setup = _tau_pool
 
     def call(self, idx, plot=False):
-        b, le = self.beta[idx].copy(), self.le[idx].copy()
+        b, le = self.buf("beta", self.beta[idx]), self.buf("le", self.le[idx])
         keep = [b.copy(), le.copy()]
         with rngmod.constant(0.37):
             outs = plots.call(self.obj, b, le, plot=plot)
@@ -210,7 +222,7 @@ class TauInterleaved(Stage):
     setup = _tau_pool
 
     def call(self, idx):
-        b, le, u = self.beta[idx].copy(), self.le[idx].copy(), self.u[idx].copy()
+        b, le, u = self.buf("beta", self.beta[idx]), self.buf("le", self.le[idx]), self.buf("u", self.u[idx])
         keep = [b.copy(), le.copy(), u.copy()]
         p1 = self.obj.tau_exit_prob(b, le)
         e = self.obj.tau_energy(b, le, u)
@@ -228,7 +240,7 @@ class CdfSampler(Stage):
         from nuspacesim.utils.cdf import grid_cdf_sampler
         g = self.obj.tau_cdf_grid
         b = np.clip(self.beta[idx], g["beta_rad"][0], g["beta_rad"][-1])
-        le, u = self.le[idx].copy(), self.u[idx].copy()
+        le, u = self.buf("le", self.le[idx]), self.buf("u", self.u[idx])
         keep = [b.copy(), le.copy(), u.copy()]
         z = grid_cdf_sampler(g)(le, b, u)
         return self.digest_outputs([z], len(idx)), _intact(keep, [b, le, u])
@@ -249,7 +261,7 @@ class Vec1dInterp(Stage):
 
     def call(self, idx):
         from nuspacesim.utils.interp import vec_1d_interp
-        r, x = self.rows[idx].copy(), self.x[idx].copy()
+        r, x = self.buf("rows", self.rows[idx]), self.buf("x", self.x[idx])
         ys = self.ys.copy()
         keep = [r.copy(), x.copy(), ys.copy()]
         y = vec_1d_interp(r, ys, x)
@@ -284,7 +296,7 @@ class AltDec(Stage):
         _shower_pool(self)
 
     def call(self, idx):
-        a = [self.beta[idx].copy(), self.tbeta[idx].copy(), self.gamma[idx].copy(), self.u[idx].copy()]
+        a = [self.buf("beta", self.beta[idx]), self.buf("tbeta", self.tbeta[idx]), self.buf("gamma", self.gamma[idx]), self.buf("u", self.u[idx])]
         keep = [x.copy() for x in a]
         alt, ln = self.obj.altDec(*a)
         with rngmod.constant(0.37):
@@ -306,7 +318,7 @@ class EasCall(Stage):
 
     def call(self, idx, plot=False):
         import dask
-        a = [self.beta[idx].copy(), self.alt[idx].copy(), self.E[idx].copy(), self.lat[idx].copy(), self.lon[idx].copy()]
+        a = [self.buf("beta", self.beta[idx]), self.buf("alt", self.alt[idx]), self.buf("E", self.E[idx]), self.buf("lat", self.lat[idx]), self.buf("lon", self.lon[idx])]
         keep = [x.copy() for x in a]
         with dask.config.set(scheduler="synchronous"):
             pe, c = plots.call(self.obj, *a, plot=plot, cloudf=lambda lat, long: np.float32(1.0))
@@ -320,7 +332,7 @@ class EasCallThreads(EasCall):
 
     def call(self, idx):
         import dask
-        a = [self.beta[idx].copy(), self.alt[idx].copy(), self.E[idx].copy(), self.lat[idx].copy(), self.lon[idx].copy()]
+        a = [self.buf("beta", self.beta[idx]), self.buf("alt", self.alt[idx]), self.buf("E", self.E[idx]), self.buf("lat", self.lat[idx]), self.buf("lon", self.lon[idx])]
         keep = [x.copy() for x in a]
         with dask.config.set(scheduler="threads", num_workers=4):
             pe, c = self.obj(*a, cloudf=lambda lat, long: np.float32(1.0))
@@ -339,8 +351,8 @@ class RadioCall(Stage):
 
     def call(self, idx):
         from nuspacesim.simulation.eas_radio.radio_antenna import calculate_snr
-        a = [self.beta[idx].copy(), self.alt[idx].copy(), self.len[idx].copy(), self.theta[idx].copy(),
-             self.path[idx].copy(), self.E[idx].copy()]
+        a = [self.buf("beta", self.beta[idx]), self.buf("alt", self.alt[idx]), self.buf("len", self.len[idx]), self.buf("theta", self.theta[idx]),
+             self.buf("path", self.path[idx]), self.buf("E", self.E[idx])]
         keep = [x.copy() for x in a]
         with rngmod.constant(0.37):
             ef = self.obj(*a)
